@@ -17,11 +17,11 @@ ASSUMPTIONS = [
     "recursively and in order",
     "comparing a node with itself is outside the statement ('two distinct trees')",
 ]
-REQUIRED = ["pairs_with_identical_ids", "pairs_equal", "pairs_different", "difference_at_child_position_ge1", "difference_at_depth_ge2", "symmetric_checked"]
+REQUIRED = ["pairs_with_identical_ids", "pairs_equal", "pairs_different", "difference_at_child_position_ge1", "difference_at_depth_ge2", "symmetric_checked", "subtree_pairs"]
 EXHAUSTIVE = {"quick": False, "thorough": False}
 
 KINDS = ("attr_reorder", "extras_reorder", "ns_reorder", "attr_type", "name", "content", "content_none", "tail", "prefix", "attr_add", "attr_del", "attr_val", "extras_add", "extras_val",
-         "ns_add", "ns_del", "ns_val", "child_append", "child_insert0", "child_remove_last", "child_remove_first", "child_swap")
+         "ns_add", "ns_del", "ns_val", "child_append", "child_insert0", "child_remove_last", "child_remove_first", "child_swap", "reparent_up", "reparent_down")
 
 
 def plan(tier, seed):
@@ -141,6 +141,22 @@ def apply_difference(rng, n, kind):
         if not n.children:
             return False
         n.remove_child(n.children[0])
+    elif kind == "reparent_up":
+        # the last child of n becomes n's next sibling: the same nodes in the same document order, another shape
+        p = n.parent
+        if not n.children or p is None or n not in p.children:
+            return False
+        c = n.children.pop()
+        c.parent = p
+        p.children.insert(p.children.index(n) + 1, c)
+    elif kind == "reparent_down":
+        # n's next sibling becomes n's last child
+        p = n.parent
+        if p is None or n not in p.children or p.children.index(n) + 1 >= len(p.children):
+            return False
+        c = p.children.pop(p.children.index(n) + 1)
+        c.parent = n
+        n.children.append(c)
     elif kind == "child_swap":
         if len(n.children) < 2:
             return False
@@ -246,6 +262,19 @@ def run(ctx, params):
         except Exception:
             pass
         emlkit.discard(c)
+        inner = snapshot.walk(t)[1:]
+        if inner:
+            # subtrees: an inner node against its detached copy, and against its copy attached below a parent of another name
+            x = rng.choice(inner)
+            sub = x.copy()
+            sub.parent = None
+            ask(ctx, x, sub, lambda: {"tree": snapshot.to_plain(x), "kind": "subtree-vs-detached-copy"}, "subtree-vs-detached-copy")
+            holder = Node("verifOtherParent")
+            holder.children.append(sub)
+            sub.parent = holder
+            ask(ctx, x, sub, lambda: {"tree": snapshot.to_plain(x), "kind": "subtree-vs-copy-under-other-parent"}, "subtree-vs-copy-under-other-parent")
+            ctx.count("subtree_pairs")
+            emlkit.discard(holder)
         sweep(ctx, t, exhaustive=(size <= 12 and ctx.tier == "thorough") or size <= 6)
         if prev is not None:
             ask(ctx, t, prev, lambda: {"tree": snapshot.to_plain(t), "other": snapshot.to_plain(prev), "kind": "unrelated"},
@@ -263,6 +292,14 @@ def replay(ctx, witness):
         o = snapshot.from_plain(Node, witness["other"])
     else:
         o = t.copy()
+        if witness.get("kind", "").startswith("subtree"):
+            holder = Node("verifOtherParent")
+            wrapper = Node("verifParent")
+            wrapper.children.append(t)
+            t.parent = wrapper
+            ask(ctx, t, o, lambda: witness, "subtree-vs-detached-copy")
+            holder.children.append(o)
+            o.parent = holder
     ask(ctx, t, o, lambda: witness, witness.get("kind", "replay"))
     ctx.distinct(1)
     ctx.distinct(2)
